@@ -91,3 +91,20 @@ def register(check, not_yet):
           "Bound: strings <= 2 (quick) / 3 (thorough) over 23 characters; ints realised by str(); #inst not checked. "
           "Reader line/col metadata is stripped before comparing re-printed text.",
           "CrossHair (z3) symbolic execution of obj.lrepr / reader.read_str", "DESIGN.md section 4 C03", "A:crosshair")
+    check("C01", "translation_validation",
+          "Translation validation of the real compiler pipeline: each corpus program (special-form fragment: if/do/let*/fn*/loop*/recur/"
+          "letfn*/try/throw/def/literals/invocation, incl. Python-unsafe names) is placed in 6 syntactic contexts and compiled by "
+          "reader->analyzer->generator->optimizer->exec under the 8 code-generation option sets; the compiled function runs on "
+          "CrossHair symbolic parameters (nil/bool/int) and its result or exception class is compared with a ~200-line reference "
+          "evaluator of the same source on every path.",
+          "Program shapes are a fixed corpus (42 bodies), not solver-chosen; quick samples the (context, option) combinations by "
+          "VERIF_SEED. Trusted: the reference evaluator. One recorded finding (closures created in a loop body).",
+          "CrossHair (z3) symbolic execution of compiler output vs reference evaluator", "DESIGN.md section 4 C01", "A:crosshair")
+    check("C02", "translation_validation",
+          "Same pipeline with effect markers: (t :k v) appends :k to a trace and returns a symbolic parameter, so branch choices, "
+          "catch clauses and loop counts are solver-decided; the compiled program's trace and result must equal the reference "
+          "evaluator's (left-to-right, exactly once, never on untaken branches) over 14 enclosing forms x argument position x 5 "
+          "compound sibling kinds plus macro/interop/operator programs.",
+          "Shapes enumerated/sampled by VERIF_SEED. The recorded hoisting finding is matched only when every marker ran exactly once "
+          "and the value is right (trace is a permutation); any other trace difference is a violation.",
+          "CrossHair (z3) symbolic execution of compiler output vs reference evaluator traces", "DESIGN.md section 4 C02", "A:crosshair")
